@@ -619,6 +619,13 @@ def expr_pool(quick):
         ("some", "Option", call("Some", ("Bin", V("a"), "+", I(1)))),
         # `s` is free only in the key, `a` only in the value
         ("dict-key-var", "Dict", ("Dict", [(V("s"), V("a"))])),
+        # a payload `a` bound by an earlier case shadows the outer `a` there only: the later case (the one that runs) uses the outer `a`
+        ("match-shadow-later-case", "Int", ("Match", ("MethodCall", V("xs"), "get", [I(9)]),
+                                            [(("Some", ("Sym", "a")), [("Bin", V("a"), "+", I(1))], False),
+                                             (("None", None), [("Bin", V("a"), "*", I(2))], False)])),
+        ("match-shadow-other-payload", "Int", ("Match", call("Err", V("s")),
+                                               [(("Ok", ("Sym", "a")), [("Bin", V("a"), "+", I(1))], True),
+                                                (("Err", ("Sym", "w")), [("Bin", V("a"), "*", I(2))], True)])),
         # the inner closure has the type Fun<(Int), List<Any>> (z is untyped): an unwritable type nested in a writable one
         ("closure-nested-any", "List", ("Call", ("Paren", ("Call", ("Paren", ("Lambda", [("z", None)], None, [
             ("Lambda", [("x", T_INT)], None, [("List", [V("z")])])])), [V("a")])), [I(1)])),
@@ -832,6 +839,32 @@ def typed_programs(quick):
             ("closure return", f"fun main_(y) {{\n  let g = fun@() {{ {c} }}\n  p(string_repr(g()(1)).len() > 0)\n}}\n\nmain_(7)\n"),
         ]
         yield from _emit_forms(H, forms, "nested " + vname)
+    yield from generic_then_plain_programs()
+
+
+def generic_then_plain_programs():
+    """A generic function directly followed by a non-generic one whose let / return positions have a type that mentions the
+    generic function's type parameter: the parameter is not in scope there, so no annotation can be written."""
+    H = TYPED_HELPERS[1] + "\n\n"
+    first_or = "fun first_or<T>(items: List<T>, default: T): T {\n  match items.first() {\n    Some(x) => x\n    None => default\n  }\n}\n\n"
+    pair_of = "fun pair_of<A, B>(x: A, y: B): (A, B) {\n  (x, y)\n}\n\n"
+    pick = "fun pick<U>(x: U, y: U): U {\n  if True { x } else { y }\n}\n\n"
+    cases = [
+        ("one type parameter", first_or, "first_or", "c([1], 2)"),
+        ("two type parameters", pair_of, "pair_of", "c(1, \"a\")"),
+        ("first of two generic functions", first_or + pick, "first_or", "c([1], 2)"),
+        ("second of two generic functions", first_or + pick, "pick", "c(1, 2)"),
+        ("generic function in a list", first_or, "[first_or]", "c.len()"),
+        ("generic function in an option", pair_of, "Some(pair_of)", "c.is_some()"),
+    ]
+    for cname, defs, value, use in cases:
+        forms = [
+            ("let in function", defs + f"fun main_() {{\n  let @c = {value}\n  p(string_repr({use}))\n}}\n\nmain_()\n"),
+            ("function return", defs + f"fun @mk@() {{\n  {value}\n}}\n\nfun main_() {{\n  let c = mk()\n  p(string_repr({use}))\n}}\n\nmain_()\n"),
+            ("closure return", defs + f"fun main_() {{\n  let g = fun@() {{ {value} }}\n  let c = g()\n  p(string_repr({use}))\n}}\n\nmain_()\n"),
+            ("let at top level", defs + f"let @c = {value}\n\np(string_repr({use}))\n"),
+        ]
+        yield from _emit_forms(H, forms, "after generic function: " + cname)
 
 
 def _emit_forms(H, forms, vname):
